@@ -27,6 +27,7 @@ def _anc(node):
 
 
 def r1_memoised_walk(chk: Check):
+    store_keeps_configurations(chk)
     tree = chk.tree
     f = tree.func("core.objects", "ConfigWalk.__call__")
     g = CFG(f.node)
@@ -248,6 +249,20 @@ def r4_walk_reaches_every_node(chk: Check):
     from . import c14
 
     c14.r2_seal_reaches_hash_inputs(chk)
+
+
+def store_keeps_configurations(chk: Check):
+    """The object store is keyed by id(config): it must keep the configurations it knows alive, or a new configuration allocated at the address
+    of a collected one receives the stale runtime object"""
+    tree = chk.tree
+    st = tree.funcs.get("core.objects:ConfigInformation.FromPython.stub")
+    if st is None:
+        raise Undecided("FromPython.stub not found")
+    adds = [c for c in fn_calls(st.node) if tail(c) == "add_stub"]
+    keeps = [x for x in body_walk(st.node) if isinstance(x, ast.Assign) and isinstance(x.targets[0], ast.Subscript) and "id(config)" in src(x.targets[0].slice) and src(x.value) == "config"]
+    keeps += [c for c in fn_calls(st.node) if any(src(a) == "config" for a in c.args) and tail(c) in ("add_stub", "add_config", "keep")]
+    chk.require(bool(adds) and bool(keeps), chk.fkey(st, "store keeps the configuration alive"), "the store records `id(config) -> object` without a reference to the configuration: after it is "
+                "collected, another configuration at the same address gets its runtime object", chk.loc(st.module, st.node))
 
 
 RULES = [
